@@ -1158,6 +1158,9 @@ func (p *partition) handleReplicationResponse(msg *nats.Msg) int {
 	if offset < p.log.NewestOffset()+1 {
 		return 0
 	}
+	if verifhook.Enabled {
+		verifhook.Point("follower.beforeAppend", p.srv.config.Clustering.ServerID, p.Stream, p.Id, leaderEpoch, len(data)) // nolint: errcheck
+	}
 	offsets, err := p.log.AppendMessageSet(data)
 	if err != nil {
 		panic(fmt.Errorf("Failed to replicate data to log %s: %v", p, err))
